@@ -169,8 +169,15 @@ class C27(Scenario):
         state = {"salt": plan["nodes"][0]["salt"], "tracked": min(40, probes["objects_tracked"]) // 5, "torn": torn}
         return viols, {"faults": faults, "probes": probes, "state": state, "nontrivial": probes["snapshots_compared"] > 0 and (probes["alg_ops_completed"] + probes["alg_ops_aborted_naturally"]) > 0}
 
-    def simplify(self, plan, phase="post"):
+    def simplify(self, plan, phase="post", target=None):
         units = plan["units"]
+        if phase == "pre" and target is not None and isinstance(target.get("detail"), dict) and "slot" in target["detail"]:
+            # keep what builds the mutated object; algorithm steps are left to ddmin
+            from sim.framework import slice_candidate
+
+            q = slice_candidate(plan, [target["detail"]["slot"]], is_program=lambda u: u["k"] == "setup")
+            if q is not None:
+                yield q
         if phase == "pre":
             if plan["nodes"][0]["salt"] != 0:
                 q = dict(plan)
